@@ -736,6 +736,7 @@ func checkC03(c *Ctx) {
 	checkC03PeekPop(c)
 	checkC03EscapeResets(c)
 	checkRound5Small(c, "C03")
+	checkFallbackKeepsLaterKeys(c, "C03.fallback-keeps-later-keys")
 	// the pending-prefix test compares how much was read with how long the bound sequence is: both in bytes
 	unitRule(c, "C03.units", []string{"(*keymap.Engine).matchBind"}, 0)
 	checkReadersAgreeOnOrder(c, "C03.readers-agree-on-order")
